@@ -166,6 +166,20 @@ func cmdCheck(args []string) int {
 			touches = false
 		}
 		if !touches {
+			for _, aa := range c.AssertBefore {
+				if aa.Cl != nil && aa.Cl.Props != nil && aa.Cl.inProp(c, prop) {
+					touches = true
+				}
+			}
+			for _, ls := range c.Loops {
+				for _, cl := range ls.Invariants {
+					if cl.Props != nil && cl.inProp(c, prop) {
+						touches = true
+					}
+				}
+			}
+		}
+		if !touches {
 			for _, cl := range append(append([]*Clause{}, c.Ensures...), c.Requires...) {
 				if cl.Props != nil && cl.inProp(c, prop) {
 					touches = true
